@@ -136,3 +136,26 @@ def _ep(c):
     c.ensures("len(result) == 3 and result[0] == self._parent._parent._export_name and result[1] == self._parent._export_name and result[2] == self._export_name",
               "export-names-of-the-ancestors-outermost-first-then-its-own")
     c.modifies()
+
+
+# ================================================================================================== C06 / C10: every level goes through the naming routines
+# Traversable.children, first use: whatever the realiser returns - no entry, ONE entry, many - is handed to every routine of the
+# routine table, and what the last routine returns is the level.  (The routines do not only tell siblings apart, they also make each
+# name safe: a lone child needs them as much as a crowd.)
+@contract("smpl_extract.structural:routine#abstract", abstract=True, assumed=True,
+          note="one naming routine of the table (make_safe_names / make_export_names / combine_stereo): under contract elsewhere; here it only marks its output")
+def _rt_abs(c):
+    c.param("elements", ("list", "int"))
+    c.returns(("obj", "RoutineOutput", {"n": "int"}))
+    c.ensures("result.n == len(elements)")
+    c.modifies()
+
+
+@contract(S + "Traversable.children[first-use,one-routine]", source_key=S + "Traversable.children", props=["C06", "C10"], proof_only=True)
+def _ch_named(c):
+    c.self_obj(("self", "smpl_extract.structural:Traversable", {"_children": ("const", None), "_routines": ("cdict", {"names": ("obj", "RoutineToken", {})}),
+                                                                "_f_realize_children": ("drop",)}))
+    c.abstract_calls = {"self._f_realize_children": "smpl_extract.structural:f_realize_children#abstract", "routine": "smpl_extract.structural:routine#abstract"}
+    c.ensures("implies(True, self._children.n >= 0)", "the-level-is-what-the-routine-returned-however-many-entries-it-has")
+    c.ensures("result is self._children", "and-it-is-remembered")
+    c.modifies("self._children")
